@@ -85,7 +85,9 @@ let program_and_obs (c : Caseio.case) : prog * nat list =
       (case_resample lc (n "n") lr (n "nr") (n "np"), obs_resample lr (n "nr"))
   | "resprior" ->
       let lc = lay c "c" 0 in
-      (case_resprior lc (n "n") (n "k") (n "np"), resample_prior_out lc (n "n") (n "k"))
+      (* with a prior that can fail the harness also reports the number of parents that are neither -1 nor an input index: none *)
+      let failing_prior = (try List.assoc "prior" c.meta <> "zero" with Not_found -> false) in
+      (case_resprior lc (n "n") (n "k") (n "np"), resample_prior_out lc (n "n") (n "k") @ (if failing_prior then [ nat_of_int 0 ] else []))
   | "density" -> (case_density (n "r") (n "c") (n "k") (n "a") (n "b"), [ n "c" ])
   | "uvr" ->
       (case_uvr (n "r") (n "c") (n "k") (n "ur") (n "uc") (n "vr") (n "vc") (n "bs") (n "rc"), [ n "c" ])
